@@ -30,6 +30,7 @@ import (
 
 	"verif/harness/lib/clus"
 	"verif/harness/lib/ev"
+	ds "github.com/ipfs/go-datastore"
 )
 
 var R *ev.Run
@@ -77,6 +78,11 @@ type history struct {
 	// CR0: every member runs with raft commit_retries 0 (legal: what a raft
 	// section without that key loads as): one attempt per operation
 	CR0 bool
+	// SNAP: every member snapshots eagerly and keeps no trailing log
+	// (snapshot_interval 15s, threshold 1, trailing_logs 0) and a full
+	// snapshot interval passes before every join / re-join: the newcomer is
+	// caught up by installing a snapshot, not by replaying the log
+	SNAP bool
 }
 
 func (h history) String() string {
@@ -87,6 +93,9 @@ func (h history) String() string {
 	cr := ""
 	if h.CR0 {
 		cr = " [commit_retries=0]"
+	}
+	if h.SNAP {
+		cr += " [eager snapshots, no trailing log]"
 	}
 	return fmt.Sprintf("n=%d %s%s", h.N, strings.Join(s, " "), cr)
 }
@@ -103,6 +112,9 @@ func (h history) shape() string {
 	cr := ""
 	if h.CR0 {
 		cr = ":cr0"
+	}
+	if h.SNAP {
+		cr += ":snap"
 	}
 	return fmt.Sprintf("n%d:%s%s", h.N, strings.Join(s, ","), cr)
 }
@@ -207,9 +219,33 @@ func enumerate() []history {
 			}
 		}
 	}
+	// a member goes away, the pinset changes behind its back, it comes back
+	// with the datastore it had (n=2; with and without eager snapshots)
+	for _, gone := range []event{{Kind: "rm", At: "L", Tgt: "F"}, {Kind: "rm", At: "F", Tgt: "self"}, {Kind: "leave"}} {
+		for _, ch := range []event{{Kind: "unpin", At: "F", C: 0}, {Kind: "updpin", At: "L"}, {Kind: "pin", At: "F", C: 1}, {Kind: "pinexp", At: "L"}} {
+			evs := []event{{Kind: "pin", At: "L", C: 0}, gone, ch, {Kind: "rejoin", At: "L"}}
+			out = append(out, history{N: 2, Evs: evs}, history{N: 2, Evs: evs, SNAP: true})
+		}
+	}
+	// the same with eager snapshots, for the histories of length <= 3 on 1-2
+	// peers that bring a peer in (join, re-join)
+	for _, h := range append([]history{}, out...) {
+		if len(h.Evs) > 3 || h.N > 2 || h.SNAP {
+			continue
+		}
+		brings := false
+		for _, e := range h.Evs {
+			if e.Kind == "join" || e.Kind == "rejoin" {
+				brings = true
+			}
+		}
+		if brings {
+			out = append(out, history{N: h.N, Evs: h.Evs, SNAP: true})
+		}
+	}
 	// the same with commit_retries 0, for the histories of length <= 2
 	for _, h := range append([]history{}, out...) {
-		if len(h.Evs) <= 2 && h.N <= 3 {
+		if len(h.Evs) <= 2 && h.N <= 3 && !h.SNAP {
 			out = append(out, history{N: h.N, Evs: h.Evs, CR0: true})
 		}
 	}
@@ -230,6 +266,8 @@ type member struct {
 }
 
 type world struct {
+	snap    bool
+	stores  map[int]ds.Datastore // a peer's datastore outlives its removal (only the raft folder is discarded)
 	cr0     bool
 	ctx     context.Context
 	t       *testing.T
@@ -251,7 +289,9 @@ func (w *world) fail(key, f string, a ...interface{}) {
 	w.viol = append(w.viol, finding{key, fmt.Sprintf(f, a...)})
 }
 
-func (w *world) startMember(idx int, initPeers []peer.ID, staging bool, base string) (*member, error) {
+func (w *world) startMember(idx int, initPeers []peer.ID, staging bool, base string, keep ...bool) (*member, error) {
+	keepStore := len(keep) > 0 && keep[0]
+
 	h := w.hosts[idx]
 	rcfg := &raft.Config{}
 	rcfg.Default()
@@ -259,6 +299,11 @@ func (w *world) startMember(idx int, initPeers []peer.ID, staging bool, base str
 	rcfg.WaitForLeaderTimeout = 20 * time.Second
 	if w.cr0 {
 		rcfg.CommitRetries = 0
+	}
+	if w.snap {
+		rcfg.RaftConfig.SnapshotInterval = 15 * time.Second
+		rcfg.RaftConfig.SnapshotThreshold = 1
+		rcfg.RaftConfig.TrailingLogs = 0
 	}
 	rcfg.DataFolder = base + "/raft"
 	// every backup slot is already taken by an older, non-empty backup (a
@@ -269,7 +314,20 @@ func (w *world) startMember(idx int, initPeers []peer.ID, staging bool, base str
 		os.MkdirAll(old+"/snapshots", 0o700)
 		os.WriteFile(old+"/raft.db", []byte("older backup"), 0o600)
 	}
-	cons, err := raft.NewConsensus(h, rcfg, inmem.New(), staging)
+	var store ds.Datastore = inmem.New()
+	if keepStore {
+		if w.stores == nil {
+			w.stores = map[int]ds.Datastore{}
+		}
+		if old, ok := w.stores[idx]; ok {
+			store = old
+		}
+	}
+	if w.stores == nil {
+		w.stores = map[int]ds.Datastore{}
+	}
+	w.stores[idx] = store
+	cons, err := raft.NewConsensus(h, rcfg, store, staging)
 	if err != nil {
 		return nil, err
 	}
@@ -569,7 +627,11 @@ func (w *world) apply(e event) bool {
 			w.settle(time.Second)
 			os.RemoveAll(fmt.Sprintf("%s/m%d/raft", w.scratch, idx))
 		}
-		m, err := w.startMember(idx, nil, true, fmt.Sprintf("%s/m%d", w.scratch, idx))
+		if w.snap {
+			time.Sleep(31 * time.Second) // every member has snapshotted and dropped its log
+			synctest.Wait()
+		}
+		m, err := w.startMember(idx, nil, true, fmt.Sprintf("%s/m%d", w.scratch, idx), e.Kind == "rejoin")
 		if err != nil {
 			w.fail("join-start-failed", "%v", err)
 			return false
@@ -752,7 +814,7 @@ func run(t *testing.T, h history) (outcome string, viol []finding, states map[st
 	clus.Bubble(t, func(t *testing.T) {
 		ctx := context.Background()
 		_, hosts := clus.NewMocknet(ctx, 0, 7)
-		w := &world{ctx: ctx, t: t, hosts: hosts, store: metrics.NewStore(), scratch: scratch, refSet: map[peer.ID]bool{}, refPins: map[string]string{}, states: map[string]bool{}, next: h.N, cr0: h.CR0}
+		w := &world{ctx: ctx, t: t, hosts: hosts, store: metrics.NewStore(), scratch: scratch, refSet: map[peer.ID]bool{}, refPins: map[string]string{}, states: map[string]bool{}, next: h.N, cr0: h.CR0, snap: h.SNAP}
 		var ids []peer.ID
 		for i := 0; i < h.N; i++ {
 			ids = append(ids, hosts[i].ID())
